@@ -128,6 +128,17 @@ def support_cases(tier):
         for st in sts:
             cases.append({'prog': {'fields': fields, 'block': [st], 'call': 'randomize'}, 'X': Xs, 'bound': None,
                           'oracles': ('c14b', 'c14s'), 'cap': 3000})
+    # ordering directives: a random field of the ordered rand set that no directive names keeps all its values
+    R_ = ('f', 'r')
+    fields = [fld('p', U2), fld('q', U2), fld('r', U2), fld('x', U2, rnd=False)]
+    for so in ([('solve_order', 'p', 'q')], [('solve_order', ['p'], ['q'])], [('solve_order', 'q', 'p')]):
+        for body in ([('expr', ('bin', '<=', gen.Q_, gen.P_)), ('expr', ('bin', '>=', R_, gen.P_))],
+                     [('expr', ('bin', '<', gen.Q_, gen.P_)), ('expr', ('bin', '!=', R_, gen.P_))],
+                     [('expr', ('bin', '<', R_, gen.Q_))],
+                     [('expr', ('bin', '!=', gen.P_, gen.Q_)), ('expr', ('bin', '<=', R_, gen.X_)), ('expr', ('bin', '!=', R_, gen.Q_))]):
+            for blk in (so + body, body + so):
+                cases.append({'prog': {'fields': fields, 'block': blk, 'call': 'randomize'}, 'X': [{'x': 2}], 'bound': None,
+                              'oracles': ('c14b', 'c14s'), 'cap': 6000})
     return cases
 
 
